@@ -3,7 +3,7 @@
 An op is a JSON-able dict:
   {"k": "parse",  "d": dialect, "sql": text}
   {"k": "plan",   "sql": text, "cat": catalog_id, "d": dialect (default mindsdb)}
-  {"k": "render", "d": parse dialect, "sql": text, "rd": renderer dialect, "fb": with_failback}
+  {"k": "render", "d": parse dialect, "sql": text, "rd": renderer dialect, "fb": with_failback[, "wp": true -> get_exec_params(with_params=True)]}
   {"k": "flow",   "sql": text, "cat": catalog_id, "rd": renderer dialect}     parse -> plan -> render step queries -> parse again
 The *observable* of an op is a canonical string that contains everything a caller can see:
 the tree, its printed form, every field of every plan step, the rendered text, or the class and
@@ -197,6 +197,9 @@ def run_op(op, env):
             from mindsdb_sql import parse_sql
             ast = parse_sql(op['sql'], dialect=op['d'])
             r = env.renderer(op['rd'])
+            if op.get('wp'):
+                sql, params = r.get_exec_params(ast, with_failback=op.get('fb', True), with_params=True)
+                return norm_text('ok: %s\nparams: %s' % (sql, dump_value(params)))
             return norm_text('ok: ' + r.get_string(ast, with_failback=op.get('fb', True)))
         if k == 'flow':
             return _flow(op, env)
